@@ -4,7 +4,7 @@ C28 — Dry runs execute nothing and predict the real run.
 Model: `RedunModel.Model.SchedCore` with `dryrun = true` (`_exec_job_main_thread` returns before
 `executor.submit`, consumes no limits; the loop ends when the queue is empty).
 -/
-import RedunModel.Lemmas.SchedCse
+import RedunModel.Lemmas.SchedDry
 namespace RedunModel.C28
 open RedunModel.SchedCore
 
@@ -57,5 +57,37 @@ def uncachedProg : Prog :=
                  fails := false, pre := .miss, children := [] } ], limit := fun _ => 1, dryrun := false }
 
 example : (popN (asDry uncachedProg) 3 init).queue = [] ∧ (popN (asDry uncachedProg) 3 init).finished = false := by decide
+
+
+/-! ### the full prediction theorem -/
+
+/-- FULL prediction theorem for completed dry runs: if the dry run (started from the same backend state
+as the real run) has its root job RESOLVED after `n` events (and had not finished earlier), then no job
+of the dry run took the "would run" exit (a job that misses stays pending or is rejected, and so does every
+ancestor up to the root), hence the real run goes through exactly the same `n` states — same results,
+resolved root, finished flag — and submits nothing. -/
+theorem complete_predicts (p : Prog) (n : Nat)
+    (hfin : ∀ k, k < n → (popN (asDry p) k init).finished = false)
+    (hres : ((popN (asDry p) n init).jobs 0).status = Status.resolved) :
+    popN p n init = popN (asDry p) n init ∧ (popN p n init).submits = [] ∧
+      ((popN p n init).jobs 0).status = Status.resolved :=
+  have h := complete_predicts_partial p n (no_miss_of_root_resolved (asDry p) rfl n hfin hres)
+  ⟨h.1, h.2, by rw [h.1]; exact hres⟩
+
+/-- the dry-run fact behind it -/
+theorem resolved_root_had_no_miss (p : Prog) (hd : p.dryrun = true) (n : Nat)
+    (hfin : ∀ k, k < n → (popN p k init).finished = false)
+    (hres : ((popN p n init).jobs 0).status = Status.resolved) :
+    ∀ k, k < n → missAtHead p (popN p k init) = false :=
+  no_miss_of_root_resolved p hd n hfin hres
+
+/-! non-vacuity of `complete_predicts`: the fully cached program resolves its root at event 9 -/
+example : (∀ k, k < 9 → (popN (asDry cachedProg) k init).finished = false) ∧
+    ((popN (asDry cachedProg) 9 init).jobs 0).status = Status.resolved := by decide
+example : (popN cachedProg 9 init).submits = [] ∧ ((popN cachedProg 9 init).jobs 0).status = Status.resolved :=
+  let h := complete_predicts cachedProg 9 (by decide) (by decide)
+  ⟨h.2.1, h.2.2⟩
+/-- and the hypothesis is not always true: with an uncached job the dry run's root never resolves -/
+example : ((popN (asDry uncachedProg) 3 init).jobs 0).status = Status.pending := by decide
 
 end RedunModel.C28
